@@ -224,5 +224,13 @@ s_iface = s_iface.replace("cheaprand()&", "uint32(verifDetNext(&verifDet[3])>>32
 open(o, "w").write(s_iface)
 replace[os.path.join(goroot, "src/runtime/iface.go")] = o
 
+# sync.Mutex measures how long a waiter has waited with the REAL monotonic clock and switches to starvation mode
+# (direct hand-off, FIFO) after 1 ms: on a loaded machine the order in which contending goroutines get a mutex
+# then differs from run to run. Only visible once lock holders can lose the processor (seeded preemption).
+# The clock sync sees stands still: mutexes stay in normal mode.
+do("sema.go", [
+    ("func internal_sync_nanotime() int64 {\n\treturn nanotime()\n}", "func internal_sync_nanotime() int64 {\n\tif verifDetOn {\n\t\treturn 0\n\t}\n\treturn nanotime()\n}"),
+])
+
 json.dump({"Replace": replace}, open(os.path.join(out, "overlay.json"), "w"), indent=1)
 print("mkoverlay: wrote", len(replace), "files to", out)
